@@ -55,11 +55,15 @@ def scalar_dtype_promote(tdtype, s):
     if isinstance(s, complex) or (isinstance(s, SymScalar) and s.kind == 'complex'):
         if tdtype in COMPLEX:
             return tdtype
+        if tdtype == 'float16':
+            raise OutOfSubset('float16 tensor with a complex scalar (complex32)')
         return 'complex128' if tdtype == 'float64' else 'complex64'
     if isinstance(s, float) or (isinstance(s, SymScalar) and s.kind == 'float'):
         if tdtype in FLOATS or tdtype in COMPLEX:
             return tdtype
         return DEFAULT_FLOAT
+    if tdtype == 'bool' and not isinstance(s, bool) and not isinstance(s, z3.BoolRef):
+        return 'int64'          # bool tensor op python int -> int64
     return tdtype
 
 
@@ -381,6 +385,17 @@ def from_data(data, dtype=None):
         return []
     shp = shape_of(data)
 
+    def check_rect(d, k):
+        if k == len(shp):
+            if isinstance(d, (list, tuple)):
+                raise PyRaise('ValueError', 'too many dimensions', origin='torch')
+            return
+        if not isinstance(d, (list, tuple)) or len(d) != shp[k]:
+            raise PyRaise('ValueError', 'expected sequence of length %d at dim %d' % (shp[k], k), origin='torch')
+        for x in d:
+            check_rect(x, k + 1)
+    check_rect(data, 0)
+
     def get(d, idx):
         for i in idx:
             d = d[i]
@@ -403,7 +418,12 @@ def from_data(data, dtype=None):
         else:
             kinds.add('float')
     if dtype is None:
-        dtype = 'complex64' if 'complex' in kinds else DEFAULT_FLOAT if 'float' in kinds else 'int64' if 'int' in kinds else 'bool'
+        dtype = 'complex64' if 'complex' in kinds else DEFAULT_FLOAT if 'float' in kinds else 'int64' if 'int' in kinds \
+            else 'bool' if 'bool' in kinds else DEFAULT_FLOAT          # torch.tensor([]) is float32
+    elif dtype in INTS + ('bool',) and ('float' in kinds or 'complex' in kinds):
+        raise OutOfSubset('non-integer data with an integer dtype (torch truncates)')
+    elif dtype not in COMPLEX and 'complex' in kinds:
+        raise OutOfSubset('complex data with a real dtype')
     axes = [Axis(s) for s in shp]
 
     def sv(v):
@@ -431,6 +451,17 @@ def from_data(data, dtype=None):
             e = x if e is None else z3.If(cond, x, e)
         return Term.of(e)
     out = STensor(axes, dtype, val)
+    if dtype in INTS and kinds <= {'int', 'bool'} and not any(isinstance(v, (STensor, SymScalar)) for _, v in flat):
+        # integer data: usable as an index tensor
+        def ival(idx):
+            cidx = [i[0] for i in idx]
+            e = None
+            for pos, v in reversed(flat):
+                x = to_int(int(v) if isinstance(v, bool) else v)
+                cond = z3.And(*[to_int(i) == p for i, p in zip(cidx, pos)]) if pos else z3.BoolVal(True)
+                e = x if e is None else z3.If(cond, x, e)
+            return z3.simplify(e) if e is not None else z3.IntVal(0)
+        out.ival = ival
     ins = [v for _, v in flat if isinstance(v, STensor)]
     return derive(out, *ins, differentiable=False)
 
@@ -440,7 +471,7 @@ def from_data(data, dtype=None):
 # ------------------------------------------------------------------------------------------------
 
 def clone(t):
-    out = STensor(list(t.axes), t.dtype, t._val, ival=t.ival, lib=t.lib)
+    out = STensor(list(t.axes), t.dtype, t._val, ival=t.ival, lib=t.lib, contiguous=t.contiguous)    # preserve_format
     out.ghost = dict(t.ghost)
     return derive(out, t)
 
@@ -460,7 +491,7 @@ def to_dtype(t, dtype):
         return t           # torch returns self when nothing changes
     if t.dtype in COMPLEX and dtype not in COMPLEX:
         raise OutOfSubset('complex -> real cast discards the imaginary part')
-    out = STensor(list(t.axes), dtype, t._val, ival=t.ival, lib=t.lib)
+    out = STensor(list(t.axes), dtype, t._val, ival=t.ival, lib=t.lib, contiguous=t.contiguous)
     out.ghost = dict(t.ghost)
     return derive(out, t)
 
@@ -507,7 +538,7 @@ def transpose2(t):
     if t.ndim > 2:
         raise PyRaise('RuntimeError', 't() expects a tensor with <= 2 dimensions', origin='torch')
     if t.ndim < 2:
-        return t
+        return permute(t, list(range(t.ndim)))     # a new tensor object viewing the same storage (x.t() is not x)
     return permute(t, [1, 0])
 
 
@@ -537,12 +568,16 @@ def squeeze(t, dim=None):
     else:
         dims = dim if isinstance(dim, (list, tuple)) else [dim]
         drop = []
+        seen_dims = []
         for d in dims:
             if n == 0:
                 if d not in (0, -1):
                     raise PyRaise('IndexError', 'Dimension out of range', origin='torch')
                 continue
             d = norm_dim(d, n)
+            if d in seen_dims:
+                raise PyRaise('RuntimeError', 'dim %d appears multiple times in the list of dims' % d, origin='torch')
+            seen_dims.append(d)
             if decide_eq(t.axes[d].size, 1):
                 drop.append(d)
     keep = [k for k in range(n) if k not in drop]
@@ -601,7 +636,8 @@ def reshape(t, shape):
         fmap = mapping(idx)
         srcidx = [tuple(fmap[f.id] for f in a.factors) for a in t.axes]
         return t.at(srcidx)
-    out = STensor(new_axes, t.dtype, val if t._val else None, lib=t.lib, contiguous=True)
+    # a strided input is either copied or (compatible strides) viewed: contiguity of the result is then unknown
+    out = STensor(new_axes, t.dtype, val if t._val else None, lib=t.lib, contiguous=bool(t.contiguous))
     from . import gauge
     gauge.on_reshape(t, out)
     if t.contiguous:
@@ -804,14 +840,16 @@ def getitem(t, index):
     n = t.ndim
     # expand ellipsis
     n_consuming = sum(1 for i in index if i is not None and i is not Ellipsis)
-    if sum(1 for i in index if i is Ellipsis) > 1:
-        raise PyRaise('IndexError', 'an index can only have a single ellipsis', origin='torch')
     if n_consuming > n:
         raise PyRaise('IndexError', 'too many indices for tensor of dimension %d' % n, origin='torch')
     full = []
+    seen_ellipsis = False
     for i in index:
         if i is Ellipsis:
-            full.extend([slice(None)] * (n - n_consuming))
+            # torch (unlike numpy) accepts several ellipses: the first one expands, the others select nothing
+            if not seen_ellipsis:
+                full.extend([slice(None)] * (n - n_consuming))
+            seen_ellipsis = True
         else:
             full.append(i)
     if not any(i is Ellipsis for i in index):
@@ -949,6 +987,11 @@ def setitem(t, index, value):
                 i = i.expr
             sel.append(('int', _int_index(i, ax.size)))
     # value broadcasting against view_shape
+    vcat = _category(value.dtype) if isinstance(value, STensor) else \
+        3 if isinstance(value, complex) or (isinstance(value, SymScalar) and value.kind == 'complex') else \
+        2 if isinstance(value, float) or (isinstance(value, SymScalar) and value.kind == 'float') else 0
+    if vcat > _category(t.dtype) and vcat >= 2:
+        raise OutOfSubset('setitem casts the value to a lower dtype category (imaginary / fractional part is discarded)')
     if isinstance(value, STensor):
         vs = value.shape
         if len(vs) > len(view_shape):
@@ -1116,9 +1159,9 @@ def binary(op, a, b):
     if isinstance(a, STensor) and isinstance(b, STensor):
         axes, ma, mb = broadcast_axes(a, b)
         if a.ndim == 0 and b.ndim > 0:
-            dt = b.dtype if _category(b.dtype) >= _category(a.dtype) else promote(a.dtype, b.dtype)
+            dt = _zero_dim_result(b.dtype, a.dtype)
         elif b.ndim == 0 and a.ndim > 0:
-            dt = a.dtype if _category(a.dtype) >= _category(b.dtype) else promote(a.dtype, b.dtype)
+            dt = _zero_dim_result(a.dtype, b.dtype)
         else:
             dt = promote(a.dtype, b.dtype)
         if op == 'div' and dt in INTS + ('bool',):
@@ -1145,13 +1188,26 @@ def binary(op, a, b):
         else:
             def val(idx):
                 return f(st, t.at(idx))
-    out = STensor(list(t.axes), dt, val, lib=t.lib, contiguous=True)
+    out = STensor(list(t.axes), dt, val, lib=t.lib, contiguous=t.contiguous)
     # multiplying by a scalar scales fro2 ; keep only what is certainly right
     return derive(out, t)
 
 
 def _category(dt):
     return 3 if dt in COMPLEX else 2 if dt in FLOATS else 1 if dt in INTS else 0
+
+
+def _zero_dim_result(dim_dt, zero_dt):
+    """result dtype of (tensor with dim > 0) op (0-d tensor): c10 combine_categories"""
+    cd, cz = _category(dim_dt), _category(zero_dt)
+    if cd >= cz:
+        return dim_dt
+    if cd == 2 and cz == 3:
+        # a float tensor with a complex 0-d tensor keeps its own width
+        if dim_dt == 'float16':
+            raise OutOfSubset('float16 tensor with a complex 0-d tensor (complex32)')
+        return 'complex128' if dim_dt == 'float64' else 'complex64'
+    return promote(dim_dt, zero_dt)
 
 
 def inplace(op, t, other):
@@ -1184,7 +1240,7 @@ def neg(t):
     if t._val is not None:
         def val(idx):
             return -t.at(idx)
-    out = STensor(list(t.axes), t.dtype, val, lib=t.lib)
+    out = STensor(list(t.axes), t.dtype, val, lib=t.lib, contiguous=t.contiguous)
     for k in ('fro2', 'orth_cols', 'orth_rows'):
         if k in t.ghost:
             out.ghost[k] = t.ghost[k]
@@ -1213,6 +1269,8 @@ def unary_fn(t, fn):
     dt = t.dtype
     if fn == 'abs' and dt in COMPLEX:
         dt = 'float64' if dt == 'complex128' else 'float32'
+    if fn == 'sqrt' and dt in INTS + ('bool',):
+        dt = DEFAULT_FLOAT          # torch.sqrt of an integer tensor is float32
     out = STensor(list(t.axes), dt, val, lib=t.lib)
     return derive(out, t)
 
@@ -1230,7 +1288,7 @@ def power(t, p):
         return binary('mul', t, t)
     if isinstance(p, (int, float)):
         # value-abstract result (only shape / dtype / autograd tags are tracked)
-        dt = t.dtype if t.dtype in FLOATS + COMPLEX else DEFAULT_FLOAT
+        dt = t.dtype if t.dtype in FLOATS + COMPLEX or (isinstance(p, int) and p >= 0 and t.dtype in INTS) else DEFAULT_FLOAT
         out = STensor(list(t.axes), dt, None, lib=t.lib)
         return derive(out, t)
     raise OutOfSubset('tensor ** %r' % (p,))
@@ -1274,6 +1332,9 @@ def pad(t, pads, value=0):
         else:
             axes.append(Axis(sz(lo[k] + t.axes[k].size + hi[k])))
             padded.append(True)
+    if t.dtype in INTS + ('bool',) and (isinstance(value, float) or (isinstance(value, SymScalar) and value.kind != 'int')
+                                        or (isinstance(value, STensor) and value.dtype not in INTS + ('bool',))):
+        raise OutOfSubset('pad of an integer tensor with a non-integer value (torch truncates)')
     vt = scalar_term(value) if not isinstance(value, STensor) else value.at([])
 
     def val(idx):
@@ -1298,10 +1359,18 @@ def pad(t, pads, value=0):
 def cat(tensors, dim=0):
     tensors = list(tensors)
     if not tensors:
-        raise PyRaise('RuntimeError', 'cat expects a non-empty list', origin='torch')
+        raise PyRaise('ValueError', 'torch.cat(): expected a non-empty list of Tensors', origin='torch')
     for t in tensors:
         if not isinstance(t, STensor):
             raise PyRaise('TypeError', 'expected Tensor as element of sequence', origin='torch')
+    for t in tensors:
+        if t.ndim == 0:
+            raise PyRaise('RuntimeError', 'zero-dimensional tensor cannot be concatenated', origin='torch')
+    if len(set(t.ndim for t in tensors)) > 1:
+        for t in tensors:
+            s0 = t.axes[0].size
+            if t.ndim == 1 and (known_eq(s0, 0) or (is_sym(s0) and not ex().pc.implied(to_int(s0) > 0))):
+                raise OutOfSubset('cat with a possibly empty 1-D tensor (legacy behaviour: torch skips it)')
     n = tensors[0].ndim
     d = norm_dim(dim, n)
     for t in tensors[1:]:
@@ -1349,6 +1418,10 @@ def tile(t, reps):
     for ax, r in zip(t.axes, reps):
         if isinstance(r, SymScalar):
             r = r.expr
+        if is_sym(r):
+            require(r >= 0, 'RuntimeError', 'Trying to create tensor with negative dimension')
+        elif r < 0:
+            raise PyRaise('RuntimeError', 'Trying to create tensor with negative dimension', origin='torch')
         if not is_sym(r) and r == 1:
             axes.append(ax); how.append('id')
         elif known_eq(ax.size, 1):
@@ -1392,7 +1465,7 @@ def diag(t):
         else:
             m = sz(z3.If(to_int(n0) < to_int(n1), to_int(n0), to_int(n1)))
         out = STensor([Axis(m)], t.dtype, (lambda idx: t.at([idx[0][0], idx[0][0]])) if t._val else None, lib=t.lib)
-        return derive(out, t, view_of=t)
+        return derive(out, t)          # torch.diag of a matrix copies (diagonal_copy); torch.diagonal is the view
     raise PyRaise('RuntimeError', 'diag(): Supports 1D or 2D tensors', origin='torch')
 
 
@@ -1439,13 +1512,14 @@ def _letter_axis(cands):
     return cands[0]
 
 
-def contract(operands, subs, out_sub):
+def contract(operands, subs, out_sub, errcls='RuntimeError', contiguous=False):
     """generic einsum core: operands: list of STensor ; subs: list of list of labels ; out_sub: list of labels.
-    labels are hashable (letters or ('e', k) for ellipsis dims)"""
+    labels are hashable (letters or ('e', k) for ellipsis dims).
+    errcls: class of the equation / size errors (RuntimeError for ATen, ValueError when opt_einsum validates)"""
     label_axes = {}
     for t, sub in zip(operands, subs):
         if len(sub) != t.ndim:
-            raise PyRaise('RuntimeError', 'einsum(): the number of subscripts does not match the number of dimensions', origin='torch')
+            raise PyRaise(errcls, 'einsum(): the number of subscripts does not match the number of dimensions', origin='torch')
         for lab, ax in zip(sub, t.axes):
             label_axes.setdefault(lab, []).append(ax)
     chosen = {}
@@ -1466,18 +1540,32 @@ def contract(operands, subs, out_sub):
             if decide_eq(ax.size, 1):
                 ax = c
                 continue
-            raise PyRaise('RuntimeError', 'einsum(): operands do not broadcast with remapped shapes', origin='torch')
+            raise PyRaise(errcls, 'einsum(): operands do not broadcast with remapped shapes', origin='torch')
         chosen[lab] = ax
     for lab in out_sub:
         if lab not in chosen:
-            raise PyRaise('RuntimeError', 'einsum(): output subscript does not appear in any input', origin='torch')
+            raise PyRaise(errcls, 'einsum(): output subscript does not appear in any input', origin='torch')
     if len(set(out_sub)) != len(out_sub):
-        raise PyRaise('RuntimeError', 'einsum(): output subscript appears more than once', origin='torch')
+        raise PyRaise(errcls, 'einsum(): output subscript appears more than once', origin='torch')
     summed = [lab for lab in chosen if lab not in out_sub]
     axes = [chosen[lab] for lab in out_sub]
     dt = operands[0].dtype
     for t in operands[1:]:
         dt = promote(dt, t.dtype)
+    if any(t.dtype != operands[0].dtype for t in operands):
+        # a contraction over a label shared by two operands is a bmm / tensordot, which requires equal dtypes;
+        # outer / element-wise products and sums over size-1 dims are multiplications and promote
+        shared = [lab for lab in summed if len(label_axes[lab]) > 1]
+
+        def participants(lab):
+            return [t for t, sub in zip(operands, subs) if lab in sub and not known_eq(t.axes[sub.index(lab)].size, 1)]
+        if shared and len(operands) > 2:
+            # pairwise evaluation: intermediate products are promoted, so whether a bmm sees two dtypes depends on the path
+            raise OutOfSubset('mixed dtypes in a multi-operand contraction: depends on the contraction path')
+        if any(len(participants(lab)) > 1 for lab in shared):
+            raise PyRaise('RuntimeError', 'einsum(): operands of a contraction must have the same dtype', origin='torch')
+        if shared and errcls == 'ValueError':
+            raise OutOfSubset('mixed dtypes in opt_einsum.contract over size-1 dims: depends on the backend call chosen')
     opaque = any(t._val is None for t in operands)
 
     def operand_index(t, sub, env):
@@ -1514,11 +1602,12 @@ def contract(operands, subs, out_sub):
         for v, b in bound:
             r = r.summed(v, b)
         return r
-    out = STensor(axes, dt, None if opaque else val, lib=operands[0].lib)
+    # the result of einsum / tensordot is in general a permuted view of a bmm result: not known to be contiguous
+    out = STensor(axes, dt, None if opaque else val, lib=operands[0].lib, contiguous=contiguous)
     return derive(out, *operands)
 
 
-def einsum(eq, *operands):
+def einsum(eq, *operands, validated_by_opt_einsum=False):
     if len(operands) == 1 and isinstance(operands[0], (list, tuple)):
         operands = tuple(operands[0])
     if not isinstance(eq, str):
@@ -1532,8 +1621,11 @@ def einsum(eq, *operands):
     else:
         lhs, rhs = eq, None
     parts = lhs.split(',')
+    # opt_einsum.contract always, and torch.einsum for three or more operands (torch.backends.opt_einsum enabled),
+    # validate the equation in python (opt_einsum): ValueError instead of ATen's RuntimeError
+    errcls = 'ValueError' if validated_by_opt_einsum or len(operands) >= 3 else 'RuntimeError'
     if len(parts) != len(operands):
-        raise PyRaise('RuntimeError', 'einsum(): more operands were provided than specified in the equation', origin='torch')
+        raise PyRaise(errcls, 'einsum(): more operands were provided than specified in the equation', origin='torch')
     subs = []
     ell_n = 0
     for p, t in zip(parts, operands):
@@ -1541,7 +1633,7 @@ def einsum(eq, *operands):
             a, b = p.split('...')
             k = t.ndim - len(a) - len(b)
             if k < 0:
-                raise PyRaise('RuntimeError', 'einsum(): the number of subscripts is more than the dimensions', origin='torch')
+                raise PyRaise(errcls, 'einsum(): the number of subscripts is more than the dimensions', origin='torch')
             ell_n = max(ell_n, k)
             subs.append((list(a), k, list(b)))
         else:
@@ -1565,11 +1657,14 @@ def einsum(eq, *operands):
         else:
             out_sub = list(rhs)
             if ell_n:
-                raise PyRaise('RuntimeError', 'einsum(): ellipsis dims must appear in the output', origin='torch')
+                raise PyRaise(errcls, 'einsum(): ellipsis dims must appear in the output', origin='torch')
     for s in fsubs:
         if len(set(s)) != len(s):
             raise OutOfSubset('einsum with repeated subscript in one operand')
-    return contract(list(operands), fsubs, out_sub)
+    if len(operands) == 1 and sorted(map(repr, out_sub)) == sorted(map(repr, fsubs[0])):
+        # a pure permutation of one operand is returned as a view
+        return permute(operands[0], [fsubs[0].index(l) for l in out_sub])
+    return contract(list(operands), fsubs, out_sub, errcls)
 
 
 def tensordot(a, b, dims):
@@ -1582,37 +1677,46 @@ def tensordot(a, b, dims):
         raise PyRaise('RuntimeError', 'both dimension lists should have same length', origin='torch')
     da = [norm_dim(d, a.ndim) for d in da]
     db = [norm_dim(d, b.ndim) for d in db]
+    if len(set(da)) != len(da) or len(set(db)) != len(db):
+        raise PyRaise('RuntimeError', 'dim appears multiple times in the list of dims', origin='torch')
+    if a.dtype != b.dtype:
+        raise PyRaise('RuntimeError', 'both inputs should have same dtype', origin='torch')
     suba = [('a', k) for k in range(a.ndim)]
     subb = [('b', k) for k in range(b.ndim)]
     for k, (x, y) in enumerate(zip(da, db)):
-        # tensordot requires exact size match (no size-1 broadcasting)
-        if not known_eq(a.axes[x].size, b.axes[y].size):
-            require(to_int(a.axes[x].size) == to_int(b.axes[y].size), 'RuntimeError', 'contracted dimensions need to match')
+        # sizes must match, except that a contracted dimension of size 1 is broadcast (torch sums the other operand
+        # over its dimension): exactly the size-1 rule of contract()
+        sa_, sb_ = a.axes[x].size, b.axes[y].size
+        if not known_eq(sa_, sb_) and not known_eq(sa_, 1) and not known_eq(sb_, 1):
+            require(z3.Or(to_int(sa_) == to_int(sb_), to_int(sa_) == 1, to_int(sb_) == 1), 'RuntimeError',
+                    'contracted dimensions need to match')
         suba[x] = ('c', k)
         subb[y] = ('c', k)
     out = [s for s in suba if s[0] == 'a'] + [s for s in subb if s[0] == 'b']
-    return contract([a, b], [suba, subb], out)
+    return contract([a, b], [suba, subb], out, contiguous=True)
 
 
 def matmul(a, b):
+    if a.dtype != b.dtype and a.ndim in (1, 2) and b.ndim in (1, 2):
+        raise PyRaise('RuntimeError', 'matmul: expected both operands to have the same dtype', origin='torch')
     if a.ndim == 2 and b.ndim == 2:
         if not known_eq(a.axes[1].size, b.axes[0].size):
             require(to_int(a.axes[1].size) == to_int(b.axes[0].size), 'RuntimeError', 'mat1 and mat2 shapes cannot be multiplied')
-        out = contract([a, b], [['i', 'k'], ['k', 'j']], ['i', 'j'])
+        out = contract([a, b], [['i', 'k'], ['k', 'j']], ['i', 'j'], contiguous=True)
         _matmul_ghost(a, b, out)
         return out
     if a.ndim == 2 and b.ndim == 1:
         if not known_eq(a.axes[1].size, b.axes[0].size):
             require(to_int(a.axes[1].size) == to_int(b.axes[0].size), 'RuntimeError', 'size mismatch')
-        return contract([a, b], [['i', 'k'], ['k']], ['i'])
+        return contract([a, b], [['i', 'k'], ['k']], ['i'], contiguous=True)
     if a.ndim == 1 and b.ndim == 2:
         if not known_eq(a.axes[0].size, b.axes[0].size):
             require(to_int(a.axes[0].size) == to_int(b.axes[0].size), 'RuntimeError', 'size mismatch')
-        return contract([a, b], [['k'], ['k', 'j']], ['j'])
+        return contract([a, b], [['k'], ['k', 'j']], ['j'], contiguous=True)
     if a.ndim == 1 and b.ndim == 1:
         if not known_eq(a.axes[0].size, b.axes[0].size):
             require(to_int(a.axes[0].size) == to_int(b.axes[0].size), 'RuntimeError', 'size mismatch')
-        return contract([a, b], [['k'], ['k']], [])
+        return contract([a, b], [['k'], ['k']], [], contiguous=True)
     raise OutOfSubset('batched matmul')
 
 
@@ -1630,8 +1734,19 @@ def _matmul_ghost(a, b, out):
 
 def sum_(t, dim=None, keepdim=False):
     n = t.ndim
+    if dim is None and keepdim:
+        raise PyRaise('TypeError', 'sum() received an invalid combination of arguments (keepdim without dim)', origin='torch')
+    if isinstance(dim, (list, tuple)) and len(dim) == 0:
+        dim = None            # an empty list of dims means all dims
+        if keepdim:
+            raise OutOfSubset('sum(dim=[], keepdim=True)')
     if dim is None:
         dims = list(range(n))
+    elif n == 0:
+        for d in (dim if isinstance(dim, (list, tuple)) else [dim]):
+            if d not in (0, -1):
+                raise PyRaise('IndexError', 'Dimension out of range', origin='torch')
+        dims = []             # a 0-d tensor accepts dim 0 / -1
     else:
         dims = dim if isinstance(dim, (list, tuple)) else [dim]
         dims = [norm_dim(d, n) for d in dims]
@@ -1668,6 +1783,8 @@ def sum_(t, dim=None, keepdim=False):
 
 def fro_norm(t):
     """tn.linalg.norm(t): 0-d tensor sqrt(sum |t|^2)"""
+    if t.dtype not in FLOATS + COMPLEX:
+        raise PyRaise('RuntimeError', 'linalg.vector_norm: Expected a floating point or complex tensor as input', origin='torch')
     val = None
     if t._val is not None:
         def val(idx):
